@@ -120,6 +120,21 @@ namespace vf
                     ++it;
             return k;
         }
+        // removes without reading the memory (it has been verified just before the allocator took it back)
+        template <class Pred>
+        std::size_t drop_if(Pred&& pred)
+        {
+            std::size_t k = 0;
+            for (auto it = live.begin(); it != live.end();)
+                if (pred(it->first, it->second))
+                {
+                    it = live.erase(it);
+                    ++k;
+                }
+                else
+                    ++it;
+            return k;
+        }
         std::size_t bytes() const
         {
             std::size_t b = 0;
